@@ -152,6 +152,7 @@ class Formulas:
         self._back = None
         self.simp = simp_deep or (lambda t: t)
         self.unknown = []  # reasons why some formula is imprecise
+        self.keyfn = None  # optional: term -> extra key suffix (to tell apart atoms that print alike)
         self.expand = True  # expand variant tests of multi-definition locals through their definitions
 
     # ---- back edges (DFS based)
@@ -181,7 +182,8 @@ class Formulas:
 
     def atom_of_term(self, t, suffix=""):
         s = self.simp(t)
-        return atom(show(s, 10) + suffix, s)
+        extra = self.keyfn(s) if self.keyfn else ""
+        return atom(show(s, 10) + extra + suffix, s)
 
     def operand_formula(self, op, depth=6):
         """formula of a boolean operand."""
